@@ -7,6 +7,7 @@ import (
 	"sort"
 	"testing"
 
+	"verifharness/appsys"
 	"verifharness/sysrun"
 	"verifharness/vh"
 )
@@ -14,6 +15,11 @@ import (
 func TestCheck(t *testing.T) {
 	env := vh.GetEnv()
 	run := vh.NewRun(env, "AM.Run.C05Run")
+	// app engine: the REAL application wiring (package app) in real time, in its own process; reports through run.
+	// true = the replay file held an app-engine case and has been handled.
+	if appsys.Part(t, env, run, "C05") {
+		return
+	}
 	var scs []sysrun.Scenario
 	if env.Replay != "" {
 		var sc sysrun.Scenario
